@@ -98,7 +98,10 @@ func checkC12(c *Check) {
 	}
 	c.Ob("R3", "reserve path evaluates the capacity predicate", run.Pos(), ra != nil && grantIf != nil, "")
 	// value families of the loop-carried locals
-	resFam := valueFamily(run, func(v ssa.Value) bool { p, ok := v.(*ssa.Parameter); return ok && paramName(p) == "reservations" && p.Parent() == run })
+	resFam := valueFamily(run, func(v ssa.Value) bool {
+		p, ok := v.(*ssa.Parameter)
+		return ok && paramName(p) == "reservations" && p.Parent() == run
+	})
 	invFam := valueFamily(run, func(v ssa.Value) bool {
 		ta, ok := v.(*ssa.TypeAssert)
 		return ok && strings.HasSuffix(ta.AssertedType.String(), "[]github.com/ovrclk/akash/provider/cluster/types.Node")
@@ -185,6 +188,34 @@ func checkC12(c *Check) {
 				}
 			}
 			c.Ob("R3", "predicate's answer is the fit of the new reservation on what the pending ones left", final.Pos(), fin && strings.Contains(Sym(final.Call.Args[2]), "p:newReservation"), "")
+			// what one pending reservation leaves (nodes and free external ports) is what the next one, and finally the new
+			// one, is placed on
+			carries := func(v ssa.Value, k int) bool {
+				seen := map[ssa.Value]bool{}
+				var walk func(x ssa.Value) bool
+				walk = func(x ssa.Value) bool {
+					if seen[x] {
+						return false
+					}
+					seen[x] = true
+					if ex, isEx := x.(*ssa.Extract); isEx && ex.Tuple == ssa.Value(inLoop) && ex.Index == k {
+						return true
+					}
+					if ph, isPhi := x.(*ssa.Phi); isPhi {
+						for _, e := range ph.Edges {
+							if walk(e) {
+								return true
+							}
+						}
+					}
+					return false
+				}
+				return walk(v)
+			}
+			for k, what := range []string{"node availability", "free external ports"} {
+				c.Ob("R3", "predicate: "+what+" left by one pending reservation is what the next one is placed on", inLoop.Pos(), carries(inLoop.Call.Args[k], k), "every pending reservation is checked against the full "+what+": their sum can exceed it")
+				c.Ob("R3", "predicate: the new reservation is placed on the "+what+" the pending ones left", final.Pos(), carries(final.Call.Args[k], k), "the new reservation is checked against the "+what+" before the pending ones were placed")
+			}
 		} else {
 			c.Ob("R3", "predicate places pending reservations then the new one", raf.Pos(), false, "")
 		}
